@@ -19,7 +19,7 @@ fn base_replies(cfg: &Cfg) -> Vec<Reply> {
         Mech::ShortTerm(Some(true)) => vec![ok.with_mac(RMac::Sha)],
         Mech::ShortTerm(_) => vec![ok.with_mac(RMac::Mi), err.with_mac(RMac::Mi)],
         Mech::LongTerm => vec![
-            Reply::plain(RClass::Error(401)).with_chal(Chal { realm: true, nonce: NonceKind::Plain(1), pas: PasKind::Absent }),
+            Reply::plain(RClass::Error(401)).with_chal(Chal { realm: true, nonce: NonceKind::Plain(1), pas: PasKind::Absent, realm_v: 0 }),
             ok.with_mac(RMac::Mi),
         ],
     }
